@@ -92,6 +92,11 @@ func (c CurlyRouter) matchesRouteByPathTokens(routeTokens, requestTokens []strin
 				if matchesRemainder {
 					break
 				}
+			} else if end := strings.Index(routeToken, "}"); end != -1 && end < len(routeToken)-1 {
+				// {var}suffix ; the request token must carry the literal suffix
+				if !strings.HasSuffix(requestToken, routeToken[end+1:]) {
+					return false, 0, 0
+				}
 			}
 		} else { // no { prefix
 			if requestToken != routeToken {
